@@ -122,6 +122,7 @@ struct Adapter {
   virtual std::string exec(int tid, const OpSpec& op) = 0;      // perform one operation, return its result
   virtual void teardown(std::vector<std::string>& out) {}       // drain / destroy; lines appended to out ("drain ...")
   virtual bool check(const Case& c, const std::vector<OpRec>& h, const std::vector<std::string>& final_lines, std::string& why) { return true; }
+  virtual bool lock_free(const Case& c, const OpSpec& op) { return true; }   // is this operation documented lock-free (C16)?
   virtual void thread_begin(int tid) {}
   virtual void thread_end(int tid) {}
 };
@@ -131,10 +132,13 @@ struct Opts { bool trace = false, race = false, weak = false, aba = false; int W
 struct ExecOut { int status = 0; std::string detail; std::vector<int> sched; std::vector<uint32_t> enabled; std::vector<uint64_t> choices; std::vector<long> tsteps; long steps = 0; };
 
 struct Shared {  // result area shared with forked children
-  int status; long steps; int nsched; int nchoices; char detail[1024]; int sched[60000]; uint32_t enabled[60000]; uint64_t choices[256]; long tsteps[17]; int nts; long stale; long loads;
+  int status; long steps; int nsched; int nchoices; long solo_at; int solo_tid; long solo_budget; char detail[1024]; int sched[60000]; uint32_t enabled[60000]; uint64_t choices[256]; long tsteps[17]; int nts; long stale; long loads;
 };
 
 inline std::vector<OpRec>* g_hist = nullptr;
+inline int g_cur_op[17];       // index of the operation a thread is executing / about to execute
+inline bool g_in_op[17];
+inline long g_solo_at = -1; inline int g_solo_tid = 0; inline long g_solo_budget = 0;   // C16 replay information
 inline long g_clock = 0;
 
 // Executes one case in the current process. If `print` the trace/history/result are written to stdout.
@@ -159,6 +163,7 @@ inline ExecOut execute(Adapter& A, const Case& c, const Opts& o, xv::Scheduler& 
       sh->nsched = (int)std::min<size_t>(pr.schedule.size(), 60000); for (int i = 0; i < sh->nsched; i++) { sh->sched[i] = pr.schedule[i]; sh->enabled[i] = pr.enabled[i]; }
       sh->nchoices = (int)std::min<size_t>(pr.choices.size(), 256); for (int i = 0; i < sh->nchoices; i++) sh->choices[i] = pr.choices[i];
       sh->steps = (long)xv::step_count();
+      sh->solo_at = g_solo_at; sh->solo_tid = g_solo_tid; sh->solo_budget = g_solo_budget;
     }
     dump(xv::status(), xv::detail());
     if (print) std::cout.flush();
@@ -175,7 +180,9 @@ inline ExecOut execute(Adapter& A, const Case& c, const Opts& o, xv::Scheduler& 
         const auto& ops = c.prog[tid - 1];
         for (size_t i = 0; i < ops.size(); i++) {
           size_t slot;
+          g_cur_op[tid] = (int)i; g_in_op[tid] = false;
           xv::yield_point();   // START step: the invocation is a scheduling point of its own
+          g_in_op[tid] = true;
           {
             xv::Quiet q2;
             OpRec r; r.tid = tid; r.idx = (int)i; r.name = ops[i].name; r.args = ops[i].args; r.inv = ++g_clock;
@@ -188,7 +195,10 @@ inline ExecOut execute(Adapter& A, const Case& c, const Opts& o, xv::Scheduler& 
             hist[slot].res = res; hist[slot].ret = ++g_clock; hist[slot].done = true;
             xv::event("res " + res);
           }
+          g_in_op[tid] = false;
+          if (xv::solo_thread() == tid) xv::end_execution();   // C16: the solo thread finished its operation within its budget
         }
+        g_cur_op[tid] = (int)ops.size(); g_in_op[tid] = false;
         A.thread_end(tid);
       });
     }
@@ -206,6 +216,7 @@ inline ExecOut execute(Adapter& A, const Case& c, const Opts& o, xv::Scheduler& 
     sh->nchoices = (int)std::min<size_t>(r.choices.size(), 256); for (int i = 0; i < sh->nchoices; i++) sh->choices[i] = r.choices[i];
     sh->nts = (int)std::min<size_t>(r.thread_steps.size(), 17); for (int i = 0; i < sh->nts; i++) sh->tsteps[i] = r.thread_steps[i];
     auto ws = xv::wstats(); sh->stale = ws.stale_reads; sh->loads = ws.loads;
+    sh->solo_at = g_solo_at; sh->solo_tid = g_solo_tid; sh->solo_budget = g_solo_budget;
   }
   dump(status, detail);
   if (print) { std::cout << "SCHED"; for (int t : r.schedule) std::cout << " " << t; std::cout << "\n"; if (!r.choices.empty()) { std::cout << "CHOICES"; for (auto t : r.choices) std::cout << " " << t; std::cout << "\n"; } std::cout << "STEPS " << r.steps; for (size_t i = 1; i < r.thread_steps.size(); i++) std::cout << " T" << i << "=" << r.thread_steps[i]; std::cout << "\n"; }
@@ -215,7 +226,7 @@ inline ExecOut execute(Adapter& A, const Case& c, const Opts& o, xv::Scheduler& 
 // run one execution in a forked child; the result comes back through shared memory
 inline bool run_child(std::function<Adapter*()> mk, const Case& c, const Opts& o, std::function<xv::Scheduler*()> mksched, Shared* sh, int timeout_s = 20) {
   memset(sh, 0, sizeof(int) * 4 + sizeof(long));
-  sh->status = -1; sh->detail[0] = 0; sh->nsched = 0; sh->nchoices = 0; sh->nts = 0;
+  sh->status = -1; sh->detail[0] = 0; sh->nsched = 0; sh->nchoices = 0; sh->nts = 0; sh->solo_at = -1; sh->solo_tid = 0;
   fflush(stdout);
   pid_t pid = fork();
   if (pid == 0) {
@@ -280,6 +291,39 @@ struct PhaseSched : xv::Scheduler {
   long nb = 0;
 };
 
+// C16: random schedule for `prefix` steps, then one eligible thread (inside or about to start a lock-free operation) runs alone
+struct SoloSched : xv::Scheduler {
+  xv::RandomSched rnd; long prefix; long budget; Adapter* A; const Case* c; bool started = false; int solo = 0; uint64_t s;
+  SoloSched(uint64_t seed, long pre, long bud, Adapter* a, const Case* cs) : rnd(seed, 35), prefix(pre), budget(bud), A(a), c(cs), s(seed * 77 + 5) {}
+  int pick(long step, int cur, uint32_t en) override {
+    if (started) return solo;
+    if (step < prefix) return rnd.pick(step, cur, en);
+    std::vector<int> elig;
+    for (int t = 1; t <= (int)c->prog.size(); t++) {
+      if (!(en & (1u << t))) continue;
+      int i = g_cur_op[t]; if (i < 0 || i >= (int)c->prog[t - 1].size()) continue;
+      if (A->lock_free(*c, c->prog[t - 1][i])) elig.push_back(t);
+    }
+    if (elig.empty()) return rnd.pick(step, cur, en);
+    s ^= s << 13; s ^= s >> 7; s ^= s << 17;
+    solo = elig[s % elig.size()]; started = true;
+    xv::set_solo(solo, budget);
+    g_solo_at = (long)xv::partial_result().schedule.size(); g_solo_tid = solo; g_solo_budget = budget;
+    return solo;
+  }
+  uint64_t choice(uint64_t n) override { return rnd.choice(n); }
+};
+
+struct SoloReplay : xv::ReplaySched {   // replay of a C16 finding: after `solo_at` decisions only `solo_tid` runs
+  long solo_at; int solo_tid; long budget; long n = 0; bool on = false;
+  int pick(long step, int cur, uint32_t en) override {
+    if (!on && n >= solo_at) { on = true; xv::set_solo(solo_tid, budget); }
+    n++;
+    if (on) return solo_tid;
+    return xv::ReplaySched::pick(step, cur, en);
+  }
+};
+
 inline int count_preemptions(const std::vector<int>& s, const std::vector<uint32_t>& en) {
   int p = 0; for (size_t i = 1; i < s.size(); i++) if (s[i] != s[i - 1] && (en[i] & (1u << s[i - 1]))) p++; return p;
 }
@@ -306,6 +350,7 @@ inline int main_driver(int argc, char** argv, std::function<Adapter*()> mk) {
     else if (a == "--pb") o.pb = atoi(nxt().c_str()); else if (a == "--depth") o.pct_depth = atoi(nxt().c_str()); else if (a == "--max-steps") o.max_steps = atol(nxt().c_str());
     else if (a == "--spin") o.spin = atoi(nxt().c_str());
     else if (a == "--maxfound") o.maxfound = atoi(nxt().c_str());
+    else if (a == "--solo-budget") o.solo_budget = atol(nxt().c_str());
     else if (a == "--quiet") o.quiet = true;
   }
   if (c.geti("aba", 0)) o.aba = true;
@@ -317,6 +362,7 @@ inline int main_driver(int argc, char** argv, std::function<Adapter*()> mk) {
     Adapter* A = mk();
     xv::Scheduler* s;
     if (!c.prefix.empty()) { auto* p = new xv::PrefixSched(); p->segs = c.prefix; s = p; }
+    else if (c.geti("solo_at", -1) >= 0) { auto* r = new SoloReplay(); r->sched = c.sched; r->choices = c.choices; r->solo_at = c.geti("solo_at", 0); r->solo_tid = (int)c.geti("solo_tid", 1); r->budget = c.geti("solo_budget", 5000); s = r; }
     else { auto* r = new xv::ReplaySched(); r->sched = c.sched; r->choices = c.choices; s = r; }
     ExecOut e = execute(*A, c, o, *s, true, nullptr);
     return e.status == 0 ? 0 : 10 + e.status;
@@ -338,11 +384,26 @@ inline int main_driver(int argc, char** argv, std::function<Adapter*()> mk) {
         norm = std::to_string(sh->status) + norm.substr(0, 60);
         if (!found_kinds.insert(norm).second) return false;   // same kind of finding already reported: keep exploring
         std::cout << "FOUND status=" << sh->status << " detail=" << sh->detail << "\n";
-        std::cout << "CASE-BEGIN\n" << case_text(c, &sc, &ch) << "CASE-END\n";
+        Case c2 = c;
+        if (sh->solo_at >= 0) { c2.cfg["solo_at"] = std::to_string(sh->solo_at); c2.cfg["solo_tid"] = std::to_string(sh->solo_tid); c2.cfg["solo_budget"] = std::to_string(sh->solo_budget); }
+        std::cout << "CASE-BEGIN\n" << case_text(c2, &sc, &ch) << "CASE-END\n";
         return (int)found_kinds.size() >= o.maxfound;
       }
       return false;
     };
+    if (o.strategy == "solo") {
+      // every execution: a random prefix of random length, then one lock-free operation must finish solo within the budget
+      for (long k = 0; k < o.n; k++) {
+        uint64_t sd = o.seed * 1000003ull + (uint64_t)k;
+        Opts o2 = o; o2.seed = sd;
+        long pre = (long)(sd % 97) * (1 + (long)((sd >> 8) % 4));
+        Adapter* Ap = nullptr;
+        run_child([&]() { Ap = mk(); return Ap; }, c, o2, [&]() -> xv::Scheduler* { return new SoloSched(sd, pre, o.solo_budget > 0 ? o.solo_budget : 5000, Ap, &c); }, sh);
+        if (handle()) { report("solo"); return 1; }
+      }
+      report("solo");
+      return found_kinds.empty() ? 0 : 1;
+    }
     if (o.strategy == "opseq") {
       for (long k = 0; k < o.n; k++) {
         uint64_t sd = o.seed * 1000003ull + (uint64_t)k;
